@@ -888,6 +888,14 @@ func (r *Recorder) Script() {
 	rng := r.Rng
 	p := r.Prof
 	n := r.N
+	if ParseReorgSpec(p.Sweep) != nil {
+		r.ReorgScript() // reorgfresh.go: reorganisation across parameter changes, judged against a fresh node
+		return
+	}
+	if p.Sweep == StaleSweep {
+		r.StaleScript() // stale.go: deleteBlock / deleteTillCommonBlock / tie-break with stale and foreign arguments
+		return
+	}
 	if p.Sweep != "" {
 		r.SweepScript() // inject.go
 		return
@@ -985,7 +993,11 @@ func (r *Recorder) Script() {
 
 // Record produces one case.
 func Record(rng *rand.Rand, prof Profile) (ops []string, tag string, err error) {
-	r, err := NewRecorder(rng, prof)
+	newRec := NewRecorder
+	if ParseReorgSpec(prof.Sweep) != nil {
+		newRec = newReorgRecorder // reorgfresh.go
+	}
+	r, err := newRec(rng, prof)
 	if err != nil {
 		return nil, "", err
 	}
@@ -1001,10 +1013,12 @@ func Record(rng *rand.Rand, prof Profile) (ops []string, tag string, err error) 
 	var tags []string
 	for _, t := range []string{"proc:tieBreakApplied", "proc:tieBreakReverted", "proc:doubleForging", "cache-exhausted", "validator-change", "dup-tx", "till:below-fin", "restore-temps", "reorg", "reapply", "restart-guards",
 		"restartg:id", "restartg:inside", "restartg:tip", "restartg:above", "restartg:below", "restartg:cfg", "restartg:chainid",
-		"sweep-apply", "sweep-sync", "sweep-delete", "sweep-tie", "inject", "inject-fired", "inject-at-raise"} {
+		"sweep-apply", "sweep-sync", "sweep-delete", "sweep-tie", "inject", "inject-fired", "inject-at-raise",
+		"reorg-fresh", "reorg-change-removed", "reorg-change-new", "reorg-candidate-forge", "reorg-candidate-failed", "reorg-full-depth"} {
 		if r.Tags[t] > 0 {
 			tags = append(tags, strings.TrimPrefix(t, "proc:"))
 		}
 	}
+	tags = append(tags, r.staleTags()...) // stale.go
 	return r.Ops, strings.Join(tags, "+"), r.Err
 }
